@@ -72,10 +72,20 @@ fn viol(class: &str, detail: String, printed: Option<&str>) -> Violation {
     }
 }
 
+/// When set, what a run observes after a re-entrant operation counts as a violation; by default
+/// such runs are advisory (see `Outcome::advisory`).
+pub static STRICT_REENTRANCY: std::sync::atomic::AtomicBool = std::sync::atomic::AtomicBool::new(false);
+
 pub struct Outcome {
     /// every decision actually taken: replaying it reproduces the run without a PRNG
     pub effective: Plan,
     pub violations: Vec<Violation>,
+    /// Observations of a run in which a stub re-entered the crate (a sink or reader that itself
+    /// prints / serialises / deserialises another value).  C12 and C13 quantify over values, not
+    /// over calling contexts, so a tree whose printing is not re-entrant (say, a thread-local
+    /// render buffer borrowed across the sink call) still satisfies them as stated.  These are
+    /// reported as notes and never change the verdict.
+    pub advisory: Vec<Violation>,
     pub log_digest: u64,
     pub nontrivial: bool,
     pub dedup_key: u64,
@@ -107,6 +117,11 @@ pub struct Search {
 
 pub trait Item: Serialize + DeserializeOwned + fmt::Display + FromStr + Clone {
     const KIND: &'static str;
+    /// C12: "the printed form is a fixed point"; C13 only: "printing is stable after one round"
+    const PRINT_IS_FIXED_POINT: bool;
+    /// C12: "the JSON being exactly the printed string"; C13 only: "the serde feature
+    /// round-trips the same way"
+    const JSON_IS_PRINTED_STRING: bool;
     /// text of the value used by re-entrant operations when it is unrelated to the outer value
     const NESTED_TEXT: &'static str;
     /// text of a sibling of the value whose printed form is `printed`
@@ -121,6 +136,8 @@ pub trait Item: Serialize + DeserializeOwned + fmt::Display + FromStr + Clone {
 
 impl Item for Version {
     const KIND: &'static str = "version";
+    const PRINT_IS_FIXED_POINT: bool = true;
+    const JSON_IS_PRINTED_STRING: bool = true;
     const NESTED_TEXT: &'static str = "9.8.7-nested.1+n.2";
     fn nested_sibling_text(printed: &str) -> String {
         format!("{}+nested.7", printed.split('+').next().unwrap_or(printed))
@@ -142,6 +159,8 @@ impl Item for Version {
 
 impl Item for Range {
     const KIND: &'static str = "range";
+    const PRINT_IS_FIXED_POINT: bool = false;
+    const JSON_IS_PRINTED_STRING: bool = false;
     const NESTED_TEXT: &'static str = ">=9.8.7-nested.1 <10.0.0||11.x||<0.0.1+n";
     fn nested_sibling_text(printed: &str) -> String {
         printed.to_string()
@@ -282,12 +301,20 @@ fn reencode_escaped(data: &[u8]) -> Option<String> {
     out.push_str("  ");
     let mut in_str = false;
     let mut esc = false;
+    let mut hex_left = 0u8;
     let mut k = 0usize;
     for ch in compact.chars() {
         if in_str {
-            if esc {
+            if hex_left > 0 {
+                // the four hex digits of an existing \uXXXX escape are copied as they are
+                out.push(ch);
+                hex_left -= 1;
+            } else if esc {
                 out.push(ch);
                 esc = false;
+                if ch == 'u' {
+                    hex_left = 4;
+                }
             } else if ch == '\\' {
                 out.push(ch);
                 esc = true;
@@ -542,7 +569,7 @@ where
             match guarded(|| y.to_string()) {
                 Err(p) => viols.push(viol("G0-print-panic", p, Some(&s))),
                 Ok(s2) => {
-                    if b.strict {
+                    if T::PRINT_IS_FIXED_POINT {
                         if s2 != s {
                             viols.push(viol(
                                 "G0-not-a-fixed-point",
@@ -571,13 +598,15 @@ where
             reparsed = Some(y);
         }
     }
-    // serde, in memory: the JSON is exactly the printed string, and reads back
+    // serde, in memory.  Version (C12): the JSON is exactly the printed string, and reads back as
+    // the re-parsed value.  Range (C13): "round-trips the same way" - the JSON need not be the
+    // printed text, but must read back as the same range.
     let want = serde_json::to_string(&s).expect("string to JSON");
     match guarded(|| serde_json::to_string(x)) {
         Err(p) => viols.push(viol("G0-serde-panic", p, Some(&s))),
         Ok(Err(e)) => viols.push(viol("G0-serde-ser-fails", e.to_string(), Some(&s))),
         Ok(Ok(j)) => {
-            if j != want {
+            if T::JSON_IS_PRINTED_STRING && j != want {
                 viols.push(viol(
                     "G0-json-not-printed-string",
                     format!("JSON {} but printed form {}", j, want),
@@ -592,12 +621,24 @@ where
                     Some(&s),
                 )),
                 Ok(Ok(z)) => {
-                    if let Some(y) = &reparsed {
-                        match guarded(|| (T::identical(&z, y), T::diff(&z, y))) {
-                            Ok((true, _)) => {}
-                            Ok((false, d)) => viols.push(viol(
-                                "G0-serde-differs-from-parse",
-                                format!("from_str({}) = {}", j, d),
+                    if T::JSON_IS_PRINTED_STRING {
+                        if let Some(y) = &reparsed {
+                            match guarded(|| (T::identical(&z, y), T::diff(&z, y))) {
+                                Ok((true, _)) => {}
+                                Ok((false, d)) => viols.push(viol(
+                                    "G0-serde-differs-from-parse",
+                                    format!("from_str({}) = {}", j, d),
+                                    Some(&s),
+                                )),
+                                Err(p) => viols.push(viol("G0-compare-panic", p, Some(&s))),
+                            }
+                        }
+                    } else {
+                        match guarded(|| T::same_after_round_trip(x, &z, &s, b.strict)) {
+                            Ok(Ok(())) => {}
+                            Ok(Err(d)) => viols.push(viol(
+                                "G0-serde-round-trip-differs",
+                                format!("from_str({}) is a different {}: {}", j, T::KIND, d),
                                 Some(&s),
                             )),
                             Err(p) => viols.push(viol("G0-compare-panic", p, Some(&s))),
@@ -613,12 +654,25 @@ where
         Err(p) => viols.push(viol("G0-serde-panic", format!("to_value panicked: {}", p), Some(&s))),
         Ok(Err(e)) => viols.push(viol("G0-serde-ser-fails", format!("to_value: {}", e), Some(&s))),
         Ok(Ok(v)) => {
-            if v != serde_json::Value::String(s.clone()) {
-                viols.push(viol(
-                    "G0-json-not-printed-string",
-                    format!("to_value gives {} but printed form {:?}", v, s),
-                    Some(&s),
-                ));
+            if T::JSON_IS_PRINTED_STRING {
+                if v != serde_json::Value::String(s.clone()) {
+                    viols.push(viol(
+                        "G0-json-not-printed-string",
+                        format!("to_value gives {} but printed form {:?}", v, s),
+                        Some(&s),
+                    ));
+                }
+            } else {
+                match guarded(|| serde_json::from_value::<T>(v.clone()).map(|z| T::same_after_round_trip(x, &z, &s, b.strict))) {
+                    Ok(Ok(Ok(()))) => {}
+                    Ok(Ok(Err(d))) => viols.push(viol(
+                        "G0-serde-round-trip-differs",
+                        format!("from_value({}) is a different {}: {}", v, T::KIND, d),
+                        Some(&s),
+                    )),
+                    Ok(Err(e)) => viols.push(viol("G0-serde-de-fails", format!("from_value({}) failed: {}", v, e), Some(&s))),
+                    Err(p) => viols.push(viol("G0-serde-panic", p, Some(&s))),
+                }
             }
         }
     }
@@ -733,6 +787,7 @@ where
             return Outcome {
                 effective,
                 violations: vec![],
+                advisory: vec![],
                 log_digest: log.0,
                 nontrivial: false,
                 dedup_key: 0,
@@ -775,6 +830,7 @@ where
                 return Outcome {
                     effective,
                     violations: viols,
+                    advisory: vec![],
                     log_digest: log.0,
                     nontrivial: false,
                     dedup_key: 0,
@@ -807,9 +863,13 @@ where
             .ok()
             .flatten()
             .and_then(|n| guarded(|| n.to_string()).ok().map(|s| (n, s)))
-            .map(|(n, s)| {
-                let j = serde_json::to_string(&s).unwrap();
-                (n, s, j)
+            .and_then(|(n, s)| {
+                let j = if T::JSON_IS_PRINTED_STRING {
+                    serde_json::to_string(&s).ok()
+                } else {
+                    guarded(|| serde_json::to_string(&n).ok()).ok().flatten()
+                };
+                j.map(|j| (n, s, j))
             })
     };
     let nested_print = || -> Option<String> {
@@ -831,7 +891,7 @@ where
     };
     let nested_de = || -> Option<String> {
         let (n, ns, nj) = nested.as_ref()?;
-        match guarded(|| serde_json::from_str::<T>(nj).map(|z| T::identical(&z, n))) {
+        match guarded(|| serde_json::from_str::<T>(nj).map(|z| T::same_after_round_trip(n, &z, ns, true).is_ok())) {
             Ok(Ok(true)) => None,
             Ok(Ok(false)) => Some(format!("re-entrant from_str of {} gave a different value than parsing {:?}", nj, ns)),
             Ok(Err(e)) => Some(format!("re-entrant from_str of {} failed: {}", nj, e)),
@@ -942,14 +1002,29 @@ where
 
     // ---- W: persist through serde_json onto the simulated medium -----------------------------------
     let j: Vec<u8> = {
-        // the bytes the record must consist of, computed from the in-memory printed forms by
-        // serde_json alone (strings in, JSON out), in the layout the knob selects
+        // The bytes the record must consist of.  Version: computed from the in-memory printed
+        // forms by serde_json alone (strings in, JSON out) - C12 says the JSON is exactly the
+        // printed string.  Range: C13 does not say that, so the reference is what the same
+        // Serialize produces into an infallible in-memory buffer; what reaches a faulty sink
+        // must be a prefix of it, and equal to it when acknowledged.
         let refs: Vec<&String> = printed.iter().collect();
         let w = Wire(shape, &refs);
-        if plan.knobs.pretty {
+        let from_printed = if plan.knobs.pretty {
             serde_json::to_vec_pretty(&w).unwrap()
         } else {
             serde_json::to_vec(&w).unwrap()
+        };
+        if T::JSON_IS_PRINTED_STRING {
+            from_printed
+        } else {
+            let item_refs: Vec<&T> = rec.items().iter().map(|b| &b.item).collect();
+            let w = Wire(shape, &item_refs);
+            let pretty = plan.knobs.pretty;
+            match guarded(|| if pretty { serde_json::to_vec_pretty(&w) } else { serde_json::to_vec(&w) }) {
+                Ok(Ok(bytes)) => bytes,
+                // cannot serialise even in memory: reported by the baseline above
+                _ => from_printed,
+            }
         }
     };
     let mut disk = Disk::default();
@@ -1484,9 +1559,24 @@ where
         "reads": effective.reads,
         "faults_delivered": { "fmt": fmt_faults, "write": write_faults, "read": read_faults_total, "reentrant_operations": reentered },
     });
+    // the in-memory baseline ran before any stub was called, so it cannot have been influenced by
+    // a re-entry; everything observed in the phases after it is advisory in such a run
+    let (violations, advisory) = if reentered > 0 && !STRICT_REENTRANCY.load(std::sync::atomic::Ordering::Relaxed) {
+        let (real, adv): (Vec<Violation>, Vec<Violation>) = viols.into_iter().partition(|v| v.class.starts_with("G0-"));
+        for v in &adv {
+            stats.inc(C::advisory_reentrancy_observations);
+            if stats.advisory_samples.len() < 8 && !stats.advisory_samples.iter().any(|x| x.0 == v.class) {
+                stats.advisory_samples.push((v.class.clone(), v.detail.clone()));
+            }
+        }
+        (real, adv)
+    } else {
+        (viols, Vec::new())
+    };
     Outcome {
         effective,
-        violations: viols,
+        violations,
+        advisory,
         log_digest: log.0,
         nontrivial,
         dedup_key: key.0,
